@@ -6,6 +6,7 @@ mod grid;
 mod host;
 mod model;
 mod illtyped;
+mod lgen;
 mod mutate;
 mod progexec;
 mod reduce;
